@@ -1,8 +1,9 @@
 #!/bin/bash
+VHOME="$(cd "$(dirname "$0")/.." && pwd)"
 # regress.sh [parallelism]  -- detection regression: every mutants/cNN_*.diff against check CNN and every seeded/<ID>-x/patch.diff
 # against the check of its property, quick tier; prints one line per patch and a summary. Scratch copies live under /var/tmp.
 P="${1:-4}"
-cd /verif
+cd "$VHOME"
 out=/var/tmp/verif-regress; rm -rf "$out"; mkdir -p "$out"
 jobs=()
 for m in mutants/*.diff; do
